@@ -2,6 +2,7 @@ import CogentModel.Json
 import CogentModel.Model.Prune
 import CogentModel.Model.PruneInvariance
 import Driver.PruneCmds
+import CogentModel.Gen.C11Scope
 /-! C11's own driver commands: the executable tree operations of `Model/PruneInvariance.lean` on trees whose
 "matrices" are just edge identifiers (`fun _ _ => id`), so the harness can compare the SHAPE cogent3's
 `rooted_at` / `rooted_with_tip` / `unrooted` produce (children in order, which edge every node hangs below,
@@ -50,8 +51,100 @@ def cmdCalcQ (j : J) : Except String J := do
   return J.obj [("Q", J.arr ((List.range m).map fun i => J.arr ((List.range m).map fun k => J.ofRat (Q i k)))),
                 ("sym", J.ofRat sym)]
 
+/-! ### `scope`: the TRANSLATED `_process_scope_info` / `get_edge_names` (Gen/C11Scope.lean) on table-driven tree primitives
+
+The harness sends what cogent3's own primitives answer on the real tree: `nodes[i] = {name, tip, root, children, names, view}`
+(`view` = id of the root of `nodes[i].unrooted_deepcopy()` or -1 when not supplied), `match = [[tree id, name, node id]]`
+(`get_node_matching_name`), `lca = [[tree id, a, b, node id]]` (`get_connecting_node`); a missing entry = the primitive raises. -/
+structure NodeRec where
+  name : String
+  tip : Bool
+  root : Bool
+  children : List Nat
+  names : List String
+  view : Int
+
+def parseNode (j : J) : Except String NodeRec := do
+  return { name := ← (← j.get "name").toStr, tip := ← (← j.get "tip").toBool, root := ← (← j.get "root").toBool,
+           children := ← (← j.get "children").toListOf J.toNat, names := ← (← j.get "names").toListOf J.toStr,
+           view := ← (← j.get "view").toInt }
+
+def optOf {α} (f : J → Except String α) : J → Except String (Option α)
+  | .null => pure none
+  | j => do return some (← f j)
+
+def tableOps (nodes : Array NodeRec) (mt : List (Nat × String × Nat)) (lca : List (Nat × String × String × Nat)) :
+    Scope.TreeOps Nat :=
+  let get (i : Nat) : NodeRec := nodes.getD i { name := "", tip := false, root := false, children := [], names := [], view := -1 }
+  { nodeMatching := fun t n => (mt.find? fun (t', n', _) => t' == t && n' == n).map fun (_, _, i) => i
+    isTip := fun i => (get i).tip
+    unrootedDeepcopy := fun i => ((get i).view).toNat
+    connectingNode := fun t a b => (lca.find? fun (t', a', b', _) => t' == t && a' == a && b' == b).map fun (_, _, _, i) => i
+    isRoot := fun i => (get i).root
+    name := fun i => (get i).name
+    children := fun i => (get i).children
+    nodeNames := fun i => (get i).names }
+
+def errName : Scope.Err → String
+  | .onlyOne => "onlyOne" | .twoSpecies => "twoSpecies" | .outgroupNotTip => "outgroupNotTip"
+  | .noStem => "noStem" | .prim => "prim"
+
+def cmdScope (j : J) : Except String J := do
+  let nodes := (← (← j.get "nodes").toListOf parseNode).toArray
+  let mt ← (← j.get "match").toListOf fun r => do
+    match ← r.toList with
+    | [t, n, i] => return (← t.toNat, ← n.toStr, ← i.toNat)
+    | _ => throw "bad match row"
+  let lca ← (← j.get "lca").toListOf fun r => do
+    match ← r.toList with
+    | [t, a, b, i] => return (← t.toNat, ← a.toStr, ← b.toStr, ← i.toNat)
+    | _ => throw "bad lca row"
+  let ops := tableOps nodes mt lca
+  let clade ← optOf J.toBool (← j.get "clade")
+  let stem ← optOf J.toBool (← j.get "stem")
+  let og ← optOf J.toStr (← j.get "outgroup_name")
+  let strs := fun (l : List String) => J.arr (l.map J.str)
+  match ← (← j.get "fn").toStr with
+  | "get_edge_names" =>
+    let a ← (← j.get "a").toStr
+    let b ← (← j.get "b").toStr
+    match C11Gen.get_edge_names ops 0 a b clade stem og with
+    | .ok l => return J.obj [("ok", strs l)]
+    | .error e => return J.obj [("err", J.str (errName e))]
+  | "process_scope_info" =>
+    let edge ← optOf J.toStr (← j.get "edge")
+    let tips ← optOf (J.toListOf J.toStr) (← j.get "tip_names")
+    let edges ← optOf (J.toListOf J.toStr) (← j.get "edges")
+    match C11Gen.process_scope_info ops 0 edge tips edges clade stem og with
+    | .ok none => return J.obj [("ok", J.null)]
+    | .ok (some l) => return J.obj [("ok", strs l)]
+    | .error e => return J.obj [("err", J.str (errName e))]
+  | "hand_get_edge_names" =>
+    -- the HAND model on the same tables (a disagreement with the implementation is a concrete failing input)
+    let a ← (← j.get "a").toStr
+    let b ← (← j.get "b").toStr
+    match Scope.edgeNames ops 0 a b (Scope.truthyB clade) (Scope.truthyB stem) og with
+    | .ok l => return J.obj [("ok", strs l)]
+    | .error e => return J.obj [("err", J.str (errName e))]
+  | "hand_process_scope_info" =>
+    let edge ← optOf J.toStr (← j.get "edge")
+    let tips ← optOf (J.toListOf J.toStr) (← j.get "tip_names")
+    let edges ← optOf (J.toListOf J.toStr) (← j.get "edges")
+    match Scope.scopeEdges ops 0 edge tips edges clade stem og with
+    | .ok none => return J.obj [("ok", J.null)]
+    | .ok (some l) => return J.obj [("ok", strs l)]
+    | .error e => return J.obj [("err", J.str (errName e))]
+  | "defaults" =>
+    let ob : Option Bool → J := fun | none => J.null | some b => J.bool b
+    return J.obj [("get_edge_names.clade", ob C11Gen.default_get_edge_names_clade),
+                  ("get_edge_names.stem", ob C11Gen.default_get_edge_names_stem),
+                  ("process_scope_info.clade", ob C11Gen.default_process_scope_info_clade),
+                  ("process_scope_info.stem", ob C11Gen.default_process_scope_info_stem)]
+  | f => throw s!"unknown fn {f}"
+
 def handle? (cmd : String) (j : J) : Option (Except String J) :=
   match cmd with
+  | "scope" => some (cmdScope j)
   | "calcq" => some (cmdCalcQ j)
   | "reroot" => some (cmdReroot j)
   | "unroot" => some (cmdUnroot j)
